@@ -262,8 +262,10 @@ def shapes(tier):
     out.append((1, True, False, False, 0))
     out.append((2, True, False, True, 0))
     if tier != "quick":
-        out.append((3, False, False, True, 0))
-        out.append((3, False, True, False, 0))
+        # (three requests with a cancellation or with frame faults exhaust
+        # the path budget of 15 minutes; three plain ones and three with an
+        # oversize first one do not)
+        out.append((3, False, False, False, 0))
         out.append((3, True, False, True, 0))
         out.append((2, False, True, True, 0))
     return out
@@ -293,7 +295,10 @@ def worker(args):
 def main(tier, replay_file=None):
     ck = common.Check(
         "C12", tier, "model_checking", FUNCTIONS,
-        bounds=dict(requests="1..2 (thorough 3) concurrent requests, payload "
+        bounds=dict(requests="1..2 concurrent requests with every combination "
+                             "of faults / cancellation; thorough: also 3 "
+                             "(plain, and with an oversize first request and "
+                             "a cancellation); payload "
                              "length 0..1472 symbolic (one request optionally "
                              "1473..1600: can never fit), content symbolic",
                     bus="per frame: deliver / lose / duplicate (solver choice); "
@@ -306,8 +311,9 @@ def main(tier, replay_file=None):
                                "index",
                     frame_index="randint stub: fresh or colliding with an index "
                                 "in use (solver choice)",
-                    outside="more than 3 requests; delayed frames overtaking "
-                            "each other"),
+                    outside="more than 3 requests; 3 requests with frame faults "
+                            "(path budget); delayed frames overtaking each "
+                            "other"),
         stubs=["transport.sendto records frames; responses are injected "
                "through the real datagram_received",
                "random.randint adversarial within its range",
